@@ -10,6 +10,7 @@ def run(ctx):
     P += semcheck.gen_programs(ctx.seed * 7919 + 2, n_loop, "negloop")
     P += common.family_small(ctx.pick(150, 2500), ctx.seed)
     P += common.cyclic_family(ctx.pick(150, 2500), ctx.seed + 100)
+    P += common.repvar_family(ctx.pick(80, 1000), ctx.seed + 150)
     P += common.ad_family(ctx.pick(120, 2000), ctx.seed + 200)
 
     def variants(p):
